@@ -420,6 +420,25 @@ fn c04(args: &Args, agg: &mut Aggregate) {
                 Ok(Err(e)) => o.tags.push(format!("error:{}", open_error_class(&e))),
             }
         }
+        // KDB uses a lone key element as it is: a key file whose payload is the PASSWORD's bytes (not 32 of
+        // them) is not a key at all and must not be hashed into the password-only key
+        if fmt == "kdb" && creds.keyfile.is_none() {
+            if let Some(pw) = &creds.password {
+                if pw.as_bytes().len() != 32 {
+                    let b64 = base64::Engine::encode(&base64::engine::general_purpose::STANDARD, pw.as_bytes());
+                    for (name, kf) in [("xml-v1-payload-is-password", format!("<KeyFile><Meta><Version>1.00</Version></Meta><Key><Data>{}</Data></Key></KeyFile>", b64)),
+                                       ("xml-v2-payload-is-password", format!("<KeyFile><Meta><Version>2.0</Version></Meta><Key><Data>{}</Data></Key></KeyFile>", hex::encode(pw.as_bytes())))] {
+                        if pw.is_empty() { continue; }
+                        o.tags.push(format!("edit:{}", name));
+                        match catch(|| Database::open(&mut &file[..], make_key(None, Some(kf.as_bytes())))) {
+                            Err(p) => o.violation = Some(format!("open panicked: {}", p)),
+                            Ok(Ok(_)) => o.violation = Some(format!("a key file that merely contains the password's bytes ({}) opened the KDB database", name)),
+                            Ok(Err(e)) => o.tags.push(format!("error:{}", open_error_class(&e))),
+                        }
+                    }
+                }
+            }
+        }
         o.nontrivial = tried >= 3;
         o
     });
@@ -864,6 +883,46 @@ fn c20(args: &Args, agg: &mut Aggregate) {
         o.nontrivial = base.creds.keyfile.is_some();
         o
     });
+    // KeePass 1: a lone key element is used as it is (it must be 32 bytes); several are hashed together
+    run_cases(agg, args, "kdb-credentials", args.n(200, 4_000), |_i, rng, _model| {
+        let mut o = CaseOutcome::default();
+        let c = crate::legacy::gen_kdb_content(rng, false);
+        let payload = crate::legacy::kdb_payload(rng, &c);
+        let meta = crate::legacy::KdbFile { twofish: rng.chance(1, 2), rounds: *rng.pick(&[0u32, 1, 3]), subversion: 0x00030004 };
+        let creds = gen_creds(rng);
+        let els = creds.elements();
+        o.input = format!("(kdb creds {} password {:?} elements {:?})", creds.kind, creds.password, els.iter().map(|e| e.len()).collect::<Vec<_>>());
+        o.tags.push(format!("creds:{}", creds.kind));
+        o.nontrivial = true;
+        if els.is_empty() { return o; }
+        if els.len() == 1 && els[0].len() != 32 {
+            // not a KeePass 1 key.  Whatever composite a reader might make up from it (here: its SHA-256, what
+            // the KDBX rule would give), it must not open a file keyed that way
+            o.tags.push("lone-element:not-32-bytes".into());
+            let fake = vec![oracle::sha256(&els[0])];
+            let file = crate::legacy::kdb_file(rng, &meta, c.groups.len() as u32, c.entries.len() as u32, &payload, &fake);
+            match catch(|| Database::open(&mut &file[..], creds.key())) {
+                Err(p) => o.violation = Some(format!("open panicked: {}", p)),
+                Ok(Ok(_)) => o.violation = Some("KDB: a lone key element that is not 32 bytes long was hashed into a key (a lone element is used as it is)".into()),
+                Ok(Err(e)) => o.tags.push(format!("error:{}", open_error_class(&e))),
+            }
+            return o;
+        }
+        o.tags.push(format!("elements:{}", els.len()));
+        let file = crate::legacy::kdb_file(rng, &meta, c.groups.len() as u32, c.entries.len() as u32, &payload, &els);
+        match catch(|| Database::open(&mut &file[..], creds.key())) {
+            Err(p) => o.violation = Some(format!("open panicked: {}", p)),
+            Ok(Err(e)) => o.violation = Some(format!("a KDB file keyed by the KeePass 1 composite of these credentials does not open: {}", open_error_class(&e))),
+            Ok(Ok(_)) => {}
+        }
+        if els.len() == 1 {
+            // the same element hashed once more is a different key
+            let rehashed = vec![oracle::sha256(&els[0])];
+            let f2 = crate::legacy::kdb_file(rng, &meta, c.groups.len() as u32, c.entries.len() as u32, &payload, &rehashed);
+            if let Ok(Ok(_)) = catch(|| Database::open(&mut &f2[..], creds.key())) { o.violation = Some("KDB: a lone 32-byte element was hashed again".into()); }
+        }
+        o
+    });
     // fixtures of all formats under their documented credentials (independent key-file derivation for KDBX4)
     run_cases(agg, args, "fixtures", FIXTURES.len() as u64, |i, _rng, _model| {
         let mut o = CaseOutcome::default();
@@ -882,5 +941,5 @@ fn c20(args: &Args, agg: &mut Aggregate) {
         o.nontrivial = f.keyfile.is_some();
         o
     });
-    write_report(args, agg, "streams: credentials (passwords absent/empty/ASCII/non-ASCII/with NUL x key files absent / 32 raw bytes / 0..200 arbitrary bytes / XML v1 with 32-byte and other payloads / XML v2 with spaces, CR/LF, TABs and either hex case / XML without key data / XML-like garbage; the saved file must verify under the independently derived composite key, open with the same credentials however the key file is laid out or delivered, not open with the password alone, and a file built by an independent writer under the same credentials must open) and fixtures; non-trivial = a key file is involved", serde_json::json!({}));
+    write_report(args, agg, "streams: credentials (passwords absent/empty/ASCII/non-ASCII/with NUL x key files absent / 32 raw bytes / 0..200 arbitrary bytes / XML v1 with 32-byte and other payloads / XML v2 with spaces, CR/LF, TABs and either hex case / XML without key data / XML-like garbage; the saved file must verify under the independently derived composite key, open with the same credentials however the key file is laid out or delivered, not open with the password alone, and a file built by an independent writer under the same credentials must open), kdb-credentials (KeePass 1 files built by the independent writer: a lone 32-byte element is used as it is, several elements are hashed together, a lone element of another length is not a key) and fixtures; non-trivial = a key file is involved", serde_json::json!({}));
 }
